@@ -264,36 +264,65 @@ def run(facts, rep, ctx):
         if not m or not b.pub:
             continue
         direction, ty = m.group(1), m.group(2)
+        b = facts.ibody(b.id, combinators=True)
         try:
             paths = enum_paths(b)
         except PathLimit:
             rep.inconc(R4, b.name + ": too many paths")
             continue
         table = {}
+        deleg = {}
+        width = {"u16": 2, "i16": 2, "u32": 4, "i32": 4, "f32": 4, "u64": 8, "i64": 8, "f64": 8}
+        adt = facts.adts.get("mila::endian_aware_io::Endian")
+        vnames = {v["discr"]: v["name"] for v in adt["variants"]} if adt else {0: "Little", 1: "Big"}
         for p in paths:
-            variant = None
+            sel = set(vnames.values())
             for (bb, term, vals, neg, dty) in p.conds:
-                if term[0] == "discr" and strip_refs(term[1])[0] == "param" and strip_refs(term[1])[1] == 1 and not neg and len(vals) == 1:
-                    variant = {0: "Little", 1: "Big"}.get(vals[0])
-                    adt = facts.adts.get("mila::endian_aware_io::Endian")
-                    if adt:
-                        for v in adt["variants"]:
-                            if v["discr"] == vals[0]:
-                                variant = v["name"]
-            conv = [e["callee"] for e in p.events if e["k"] == "call" and e["callee"] and re.search(r"::(to|from)_(le|be)_bytes$", e["callee"])]
-            if variant is None:
-                if conv:
-                    table.setdefault("?", set()).update(conv)
+                if term[0] == "discr" and strip_refs(term[1])[0] == "param" and strip_refs(term[1])[1] == 1:
+                    names = set(vnames[v] for v in vals if v in vnames)
+                    sel = sel - names if neg else sel & names
+            if p.end != "ret" or is_err_term(p.ret) is True:
                 continue
-            table.setdefault(variant, set()).update(conv)
+            # byte-order conversions on the path, with in-place reversals of the byte array before them
+            flips = 0
+            conv = []
+            for e in p.events:
+                if e["k"] != "call" or not e["callee"]:
+                    continue
+                if e["callee"].endswith("<impl [T]>::reverse"):
+                    flips += 1
+                mm = re.search(r"<impl (\w+)>::(to|from)_(le|be)_bytes$", e["callee"])
+                if mm:
+                    order = mm.group(3)
+                    if flips % 2:
+                        order = "be" if order == "le" else "le"
+                    conv.append((mm.group(1), mm.group(2), order))
+                    flips = 0
+                dm = re.match(r"mila::endian_aware_io::Endian::(encode|decode)_(\w+)$", e["callee"])
+                if dm and dm.group(1) == direction and dm.group(2) != ty:
+                    for v in sel:
+                        deleg.setdefault(v, set()).add(dm.group(2))
+            if flips % 2 and conv:
+                # a reversal after the conversion (encode side): flips the produced bytes
+                t_, d_, o_ = conv[-1]
+                conv[-1] = (t_, d_, "be" if o_ == "le" else "le")
+            for v in sel:
+                table.setdefault(v, set()).update(conv)
         for variant, suffix in (("Little", "le"), ("Big", "be")):
-            want_fn = "%s_%s_bytes" % ("from" if direction == "decode" else "to", suffix)
+            want_dir = "from" if direction == "decode" else "to"
             got = table.get(variant, set())
-            good = len(got) == 1 and all(g.endswith("::" + want_fn) and ("impl %s>" % ty) in g for g in got)
-            if good:
-                rep.ok(R4, {"fn": b.name, "variant": variant, "conv": sorted(got)[0]})
+            via = deleg.get(variant, set())
+            if len(got) == 1 and list(got)[0][1] == want_dir and list(got)[0][2] == suffix and width.get(list(got)[0][0]) == width.get(ty):
+                rep.ok(R4, {"fn": b.name, "variant": variant, "conv": "%s::%s_%s_bytes" % list(got)[0]})
+            elif not got and len(via) == 1 and width.get(list(via)[0]) == width.get(ty):
+                # same-width sibling (checked on its own) plus a bit-preserving cast / from_bits
+                rep.ok(R4, {"fn": b.name, "variant": variant, "conv": "via %s_%s" % (direction, list(via)[0])})
+            elif got and all(g[1] == want_dir for g in got) and len(got) == 1:
+                g = list(got)[0]
+                rep.violation(R4, b.name, variant, "%s on Endian::%s converts with %s::%s_%s_bytes, expected %s::%s_%s_bytes" % (
+                    b.name.rsplit("::", 1)[-1], variant, g[0], g[1], g[2], ty, want_dir, suffix), "%s:%s" % (b.file, b.line))
             else:
-                rep.violation(R4, b.name, variant, "%s on Endian::%s uses %s, expected %s::%s" % (b.name.rsplit("::", 1)[-1], variant, sorted(got) or "nothing", ty, want_fn), "%s:%s" % (b.file, b.line))
+                rep.inconc(R4, "%s on Endian::%s: byte-order conversion not recognised (%s)" % (b.name.rsplit("::", 1)[-1], variant, sorted(got) or "none"))
 
     stream_rules(facts, rep, E)
     adt_rule(facts, rep)
